@@ -8,6 +8,8 @@ counted separately); *survived* otherwise.  Survivors are listed for manual tria
 dead branches, operators that cannot differ on reachable values).
 
 usage: tools/mutation_campaign.py [--sample N] [--seed S] [--seeds-per-check K] [--out FILE]
+       tools/mutation_campaign.py --survivors-of OLD.md [--with-asan] --out FILE     (re-tests only the survivors listed in an earlier
+       result file against the current checks; --with-asan also builds the sanitizer flavour and runs C15 without its valgrind pass)
 """
 import argparse, os, random, re, shutil, subprocess, sys, json, time
 
@@ -85,6 +87,8 @@ def main():
     ap.add_argument("--seeds-per-check", type=int, default=1200)
     ap.add_argument("--out", default=os.path.join(ROOT, "seeded", "MUTATION.md"))
     ap.add_argument("--workers", type=int, default=8)
+    ap.add_argument("--survivors-of", default=None)
+    ap.add_argument("--with-asan", action="store_true")
     a = ap.parse_args()
     shutil.rmtree(PRISTINE, ignore_errors=True)
     sh(["rsync", "-a", "--exclude", "_build", "--exclude", ".git", "/repo/", PRISTINE + "/"])
@@ -96,6 +100,15 @@ def main():
     rnd = random.Random(a.seed)
     rnd.shuffle(all_m)
     chosen = all_m[:a.sample]
+    if a.survivors_of:
+        want = set()
+        for l in open(a.survivors_of):
+            c = [x.strip() for x in l.split("|")]
+            if len(c) > 4 and c[3] == "SURVIVED":
+                f, ln = c[1].rsplit(":", 1)
+                want.add(("src/" + f, int(ln) - 1, c[2]))
+        chosen = [m for m in all_m if (m[0], m[1], m[4]) in want]
+        chosen.sort(key=lambda m: (m[0], m[1]))
     print("%d candidate mutants, %d sampled" % (len(all_m), len(chosen)), flush=True)
     shutil.rmtree(SCR, ignore_errors=True)
     rows = []
@@ -114,12 +127,13 @@ def main():
             lines[li] = new
             open(p, "w").write("\n".join(lines))
             env = dict(os.environ, TBFSIM_REPO=SCR, TBFSIM_BUILD=BLD, TBFSIM_HANG_S="45")
-            b = sh(["make", "-C", ROOT, "-j16", "BUILD=" + BLD, "REPO=" + SCR, "plain"])
+            b = sh(["make", "-C", ROOT, "-j16", "BUILD=" + BLD, "REPO=" + SCR, "plain"] + (["asan"] if a.with_asan else []))
             if b.returncode != 0:
                 rows.append((path, li + 1, what, "does-not-compile", "")); print(rows[-1], flush=True); continue
             verdict, by = "SURVIVED", ""
-            for c in CHECKS:
-                r = sh(["python3", os.path.join(ROOT, "tools", "check.py"), c, "--seeds", str(a.seeds_per_check if c != "C12" else max(20, a.seeds_per_check // 20)),
+            if a.with_asan: env["TBFSIM_NO_VALGRIND"] = "1"
+            for c in CHECKS + (["C15"] if a.with_asan else []):
+                r = sh(["python3", os.path.join(ROOT, "tools", "check.py"), c, "--seeds", str(a.seeds_per_check if c not in ("C12", "C15") else (max(20, a.seeds_per_check // 20) if c == "C12" else max(150, a.seeds_per_check // 4))),
                         "--no-minimise", "--workers", str(a.workers), "--evidence-dir", "/var/tmp/tbfsim_mutcamp_ev", "--replay-dir", "/var/tmp/tbfsim_mutcamp_ev"], env=env)
                 if r.returncode == 1:
                     k = [x for x in r.stdout.splitlines() if x.startswith("violation: ")]
